@@ -211,8 +211,12 @@ def run_C13(ctx):
     rresp = os.path.join(ctx.work, "res-dispatch-race.json")
     binp = core.build_harness(ctx, race=True)
     import subprocess
-    p = subprocess.run([binp, "dispatch-race", "-out", rresp, "-events", "300" if q else "3000"], capture_output=True, text=True, timeout=1200,
+    p = subprocess.run([binp, "dispatch-race", "-out", rresp, "-events", "300" if q else "3000"], capture_output=True, text=True, timeout=300,
                        env=dict(core.GOENV, VERIF_SEED=str(ctx.seed), GORACE="halt_on_error=0"))
+    if os.path.exists(rresp):
+        rres = core.read_json(rresp)
+        for v in rres["violations"]:
+            core.report(ctx, v["what"], v["detail"], v["signature"])
     races = p.stderr.count("WARNING: DATA RACE")
     agg["notes"]["race_detector_runs"] = 4
     agg["notes"]["data_races_reported"] = races
